@@ -197,7 +197,7 @@ def snapshot(circuit):
 
 def make_router(kind, connectivity, opts):
     if kind == "ShortestPaths":
-        return ShortestPaths(connectivity, seed=opts.get("seed", 0))
+        return ShortestPaths(connectivity, seed=opts.get("seed"))   # None -> the documented default 42
     if kind == "Sabre":
         return Sabre(connectivity, **opts)
     return StarConnectivityRouter(connectivity)
@@ -409,7 +409,7 @@ def sabre_opts(rng):
 def make_case(rng, G, router, style, ngates, mode, meas, dm=False):
     wire_names, edges = label_graph(rng, G, style)
     n = len(wire_names)
-    opts = sabre_opts(rng) if router == "Sabre" else ({"seed": rng.randrange(1000)} if router == "ShortestPaths" else {})
+    opts = sabre_opts(rng) if router == "Sabre" else ({"seed": rng.randrange(1000)} if router == "ShortestPaths" and rng.random() < 0.85 else {})
     return {"router": router, "n": n, "nodes": list(wire_names), "wire_names": list(wire_names), "edges": edges,
             "opts": opts, "gates": random_recipe(rng, n, ngates, mode, meas), "exact": mode not in ("float", "named"), "dm": dm}
 
@@ -726,7 +726,7 @@ def router_suites(ctx, st):
             ntr = 0
             while ntr < len(gl) and gl[len(gl) - 1 - ntr].startswith("gates.M("):
                 ntr += 1
-            case = dict(case, gates=[_re.sub(r"gates\.M\((\d+),[\d,]+", r"gates.M(\1", g) if i < len(gl) - ntr else g
+            case = dict(case, gates=[_re.sub(r"gates\.M\((\d+)(?:,\d+)+", r"gates.M(\1", g) if i < len(gl) - ntr else g
                                      for i, g in enumerate(gl)])
             ctx.stat("reduced_after_known_split_defect")
             bad = route_and_record(ctx, st, case)
